@@ -194,10 +194,20 @@ func (in *interp) inline(c *ast.CallExpr, fd *ast.FuncDecl) []ev {
 	return evs
 }
 
+// hasRelevant: does the sequence touch the protocol state?  Prints, returns and guards on something else than the protocol state
+// (argument checks such as `len(tokens) == 0`, error checks) do not.
 func hasRelevant(evs []ev) bool {
 	for _, e := range evs {
 		switch e.kind {
 		case "print", "ret":
+		case "guard":
+			if !strings.HasPrefix(e.arg, "?") {
+				return true
+			}
+		case "nested":
+			if hasRelevant(e.sub) {
+				return true
+			}
 		default:
 			return true
 		}
